@@ -125,3 +125,191 @@ class SymArr:
 
     def _state(self):
         return [self.a]
+
+
+# ---------------------------------------------------------------------------------------------
+# CellList model
+class PosList:
+    """vector<vector<double>> positions of the extended system: N rows given by uninterpreted functions"""
+
+    def __init__(self, N, prefix="X"):
+        self.N = N
+        self.fx = [z3.Function("%s%d" % (prefix, k), I, R) for k in range(3)]
+
+    def _len(self):
+        return self.N
+
+    def _getitem(self, i):
+        cur().safety("positions-index", z3.And(z3num(i) >= 0, z3num(i) < z3num(self.N)))
+        return [SR(f(z3num(i))) for f in self.fx]
+
+    def at(self, i, k):
+        return self.fx[k](z3num(i))
+
+
+class RowList:
+    """vector<vector<double>> (factors) / vector<int> (indices) by uninterpreted functions"""
+
+    def __init__(self, N, name, width=None, sort="real"):
+        self.N = N
+        self.width = width
+        rs = R if sort == "real" else I
+        self.f = [z3.Function("%s%d" % (name, k), I, rs) for k in range(width)] if width else [z3.Function(name, I, rs)]
+
+    def _len(self):
+        return self.N
+
+    def _getitem(self, i):
+        if self.width:
+            return [SR(f(z3num(i))) for f in self.f]
+        return SR(self.f[0](z3num(i)))
+
+
+class Bins:
+    """vector<vector<vector<vector<int>>>>: which extended atom sits in which bin (three ghost arrays idx -> bin coordinate)"""
+
+    def __init__(self, dims):
+        self.dims = dims
+        st = cur()
+        st.n += 1
+        self.b = [z3.Const("bin%s!%d" % (c, st.n), z3.ArraySort(I, I)) for c in "xyz"]
+        self.filled = SymSet()
+
+    def _getitem(self, i):
+        return _BinView(self, [i])
+
+    def _state(self):
+        return list(self.b) + [self.filled.arr]
+
+
+class _BinView:
+    _symbolic_iter = True
+
+    def __init__(self, bins, idx):
+        self.bins = bins
+        self.idx = idx
+
+    def _getitem(self, j):
+        return _BinView(self.bins, self.idx + [j])
+
+    def _check(self):
+        st = cur()
+        for v, d, c in zip(self.idx, self.bins.dims, "xyz"):
+            st.prove_or_assume("bin-index-in-range(%s)" % c, z3.And(z3num(v) >= 0, z3num(v) < z3num(d)))
+
+    def append(self, idx):
+        if len(self.idx) != 3:
+            raise Unsupported("append to a partial bin index")
+        self._check()
+        B = self.bins
+        for k in range(3):
+            B.b[k] = z3.Store(B.b[k], z3num(idx), z3num(self.idx[k]))
+        B.filled = SymSet(z3.Store(B.filled.arr, z3num(idx), z3.BoolVal(True)))
+
+    # iteration over the content of one bin (order not assumed)
+    def _setdom(self):
+        B = self.bins
+        st = cur()
+        s_ = fresh_set(st, "bincontent")
+        q = z3.Int("q!bin")
+        st.assume(z3.ForAll([q], s_.mem(q) == z3.And(B.filled.mem(q), *[z3.Select(B.b[k], q) == z3num(self.idx[k]) for k in range(3)])))
+        return s_
+
+    def _elem(self, x):
+        return x
+
+    def _cxx_iter(self):
+        return self
+
+
+class AppendLog:
+    """result vector of a query: the values appended on this path are recorded"""
+
+    def __init__(self, name):
+        self.name = name
+        self.log = []
+
+    def append(self, v):
+        self.log.append(v)
+
+    def _state(self):
+        return []
+
+
+class MinMap:
+    """unordered_map<int, tuple<double, vector, vector>> : key set + per-key tuple components"""
+
+    def __init__(self):
+        st = cur()
+        st.n += 1
+        self.keys = SymSet()
+        self.dist = z3.Const("mm_dist!%d" % st.n, z3.ArraySort(I, R))
+        self.src = z3.Const("mm_src!%d" % st.n, z3.ArraySort(I, I))  # ghost: extended index the entry came from
+        self.disp = [z3.Const("mm_disp%d!%d" % (k, st.n), z3.ArraySort(I, R)) for k in range(3)]
+        self.fac = [z3.Const("mm_fac%d!%d" % (k, st.n), z3.ArraySort(I, R)) for k in range(3)]
+
+    def havoc(self):
+        st = cur()
+        st.n += 1
+        self.keys = fresh_set(st, "mm_keys")
+        self.dist = z3.Const("mm_dist!%d" % st.n, z3.ArraySort(I, R))
+        self.src = z3.Const("mm_src!%d" % st.n, z3.ArraySort(I, I))
+        self.disp = [z3.Const("mm_disp%d!%d" % (k, st.n), z3.ArraySort(I, R)) for k in range(3)]
+        self.fac = [z3.Const("mm_fac%d!%d" % (k, st.n), z3.ArraySort(I, R)) for k in range(3)]
+
+    def _find(self, k):
+        return _Find(self, k)
+
+    def _getitem(self, k):
+        kk = z3num(k)
+        cur().safety("map-key-present", self.keys.mem(kk))
+        return (SR(z3.Select(self.dist, kk)), [SR(z3.Select(a, kk)) for a in self.disp], [SR(z3.Select(a, kk)) for a in self.fac])
+
+    def _setitem(self, k, v):
+        kk = z3num(k)
+        d, disp, fac = v
+        self.keys = SymSet(z3.Store(self.keys.arr, kk, z3.BoolVal(True)))
+        self.dist = z3.Store(self.dist, kk, z3num(d))
+        self.disp = [z3.Store(a, kk, z3num(x)) for a, x in zip(self.disp, disp)]
+        self.fac = [z3.Store(a, kk, z3num(x)) for a, x in zip(self.fac, fac)]
+        st = cur()
+        if "current_idx" in st.ghost:
+            self.src = z3.Store(self.src, kk, z3num(st.ghost["current_idx"]))
+
+    def _state(self):
+        return [self.keys.arr, self.dist] + self.disp + self.fac
+
+    # iteration over (key, value) pairs
+    _symbolic_iter = True
+
+    def _cxx_iter(self):
+        return self
+
+    def _setdom(self):
+        return self.keys
+
+    def _elem(self, x):
+        kk = z3num(x)
+        return (x, (SR(z3.Select(self.dist, kk)), [SR(z3.Select(a, kk)) for a in self.disp], [SR(z3.Select(a, kk)) for a in self.fac]))
+
+
+class _Find:
+    def __init__(self, m, k):
+        self.m, self.k = m, k
+
+    def __eq__(self, o):
+        if isinstance(o, _End):
+            return mkbool(z3.Not(self.m.keys.mem(z3num(self.k))))
+        return NotImplemented
+
+    def __ne__(self, o):
+        if isinstance(o, _End):
+            return mkbool(self.m.keys.mem(z3num(self.k)))
+        return NotImplemented
+
+    __hash__ = None
+
+
+class _End:
+    def __init__(self, m):
+        self.m = m
